@@ -70,16 +70,22 @@ class Stats(object):
 
     def merge(self, other):
         self.c.update(other.c)
-        self.sigs |= other.sigs
-        self.nt_sigs |= other.nt_sigs
-        self.states |= other.states
+        # bounded memory: beyond the cap the counts are lower bounds
+        if len(self.sigs) < 4000000:
+            self.sigs |= other.sigs
+        else:
+            self.c["signature_cap_hit"] += 1
+        if len(self.nt_sigs) < 4000000:
+            self.nt_sigs |= other.nt_sigs
+        if len(self.states) < 4000000:
+            self.states |= other.states
         for s in other.samples:
             if len(self.samples) < 6:
                 self.samples.append(s)
 
     def sig(self, obj, nontrivial):
         v = h64(obj)
-        if len(self.sigs) < 3000000:
+        if len(self.sigs) < 1500000:
             self.sigs.add(v)
-        if nontrivial and len(self.nt_sigs) < 3000000:
+        if nontrivial and len(self.nt_sigs) < 1500000:
             self.nt_sigs.add(v)
